@@ -9,6 +9,7 @@ import (
 	"errors"
 	"fmt"
 	"sync"
+	"time"
 
 	abci "github.com/cometbft/cometbft/abci/types"
 	"github.com/cometbft/cometbft/crypto/tmhash"
@@ -195,6 +196,21 @@ type chainFeedQuerier struct {
 	mu  sync.Mutex // the signaller issues its three queries concurrently
 	qs  feedstypes.QueryServer
 	ctx func() sdk.Context
+	// fail: the queries ("valid", "params", "feeds", "vprices") that fail during the current poll (scripted fault).  A
+	// failing query answers at once, the others a little later, so that a failure is never the last answer to arrive.
+	fail map[string]bool
+}
+
+var errScriptedQuery = fmt.Errorf("scripted query failure")
+
+func (q *chainFeedQuerier) gate(name string) error {
+	if q.fail[name] {
+		return errScriptedQuery
+	}
+	if len(q.fail) > 0 {
+		time.Sleep(3 * time.Millisecond)
+	}
+	return nil
 }
 
 func newChainFeedQuerier(k feedskeeper.Keeper, ctx func() sdk.Context) *chainFeedQuerier {
@@ -202,24 +218,36 @@ func newChainFeedQuerier(k feedskeeper.Keeper, ctx func() sdk.Context) *chainFee
 }
 
 func (q *chainFeedQuerier) QueryValidValidator(v sdk.ValAddress) (*feedstypes.QueryValidValidatorResponse, error) {
+	if err := q.gate("valid"); err != nil {
+		return nil, err
+	}
 	q.mu.Lock()
 	defer q.mu.Unlock()
 	return q.qs.ValidValidator(q.ctx(), &feedstypes.QueryValidValidatorRequest{Validator: v.String()})
 }
 
 func (q *chainFeedQuerier) QueryValidatorPrices(v sdk.ValAddress) (*feedstypes.QueryValidatorPricesResponse, error) {
+	if err := q.gate("vprices"); err != nil {
+		return nil, err
+	}
 	q.mu.Lock()
 	defer q.mu.Unlock()
 	return q.qs.ValidatorPrices(q.ctx(), &feedstypes.QueryValidatorPricesRequest{Validator: v.String()})
 }
 
 func (q *chainFeedQuerier) QueryParams() (*feedstypes.QueryParamsResponse, error) {
+	if err := q.gate("params"); err != nil {
+		return nil, err
+	}
 	q.mu.Lock()
 	defer q.mu.Unlock()
 	return q.qs.Params(q.ctx(), &feedstypes.QueryParamsRequest{})
 }
 
 func (q *chainFeedQuerier) QueryCurrentFeeds() (*feedstypes.QueryCurrentFeedsResponse, error) {
+	if err := q.gate("feeds"); err != nil {
+		return nil, err
+	}
 	q.mu.Lock()
 	defer q.mu.Unlock()
 	return q.qs.CurrentFeeds(q.ctx(), &feedstypes.QueryCurrentFeedsRequest{})
